@@ -15,7 +15,7 @@ PLAN = {
 }
 LEVEL = 'exploration'
 TECHNIQUE = "runtime monitoring: algebraic laws checked on observed results of ==, <, hash, repr, copy, replace, setattr over the option cube, plus a differential of the hash category against the standard library's dataclass rule table on a mirrored class"
-RULE = ("option cube (eq, order, frozen, unsafe_hash, explicit __hash__: all 32 points every shard) x per-field compare/hash/repr "
+RULE = ("option cube (eq, order, frozen, unsafe_hash, explicit __hash__: all 48 points (explicit __hash__: none / a function / None) every shard) x per-field compare/hash/repr "
         "flag patterns for 1-4 fields x instance pairs and triples from a small value pool (equal, adjacent and reversed tuples "
         "occur), generic G[int]/G[str]/G instances; laws: reflexive/symmetric/transitive equality on compare-fields, foreign "
         "objects compare False, trichotomy and lexicographic order, TypeError across classes / with order=False, hash category = "
@@ -66,7 +66,7 @@ def make_classes(opts, fields, explicit, user_eq=False):
         if kw:
             ns[f['name']] = env.pfield(**kw)
     if explicit:
-        ns['__hash__'] = explicit_hash
+        ns['__hash__'] = None if explicit == 'none' else explicit_hash      # `__hash__ = None` written in the class body is explicit too
     if user_eq:
         ns['__eq__'] = user_eq_fn
     try:
@@ -84,7 +84,7 @@ def make_classes(opts, fields, explicit, user_eq=False):
                 kw['default'] = POOL[f['kind']][0]
         dfields.append((f['name'], PY[f['kind']], dataclasses.field(**kw)))
     try:
-        dns = {'__hash__': explicit_hash} if explicit else {}
+        dns = {'__hash__': None if explicit == 'none' else explicit_hash} if explicit else {}
         if user_eq:
             dns['__eq__'] = user_eq_fn
         dcls = dataclasses.make_dataclass(name + 'Std', dfields, eq=opts.get('eq', True), frozen=opts.get('frozen', True),
@@ -114,7 +114,8 @@ def hash_category(cls, mk):
 
 
 def run(ctx):
-    cube = list(itertools.product((True, False), repeat=5))   # eq, order, frozen, unsafe_hash, explicit
+    # eq, order, frozen, unsafe_hash, explicit __hash__ (no / a function / None)
+    cube = [b + (e,) for b in itertools.product((True, False), repeat=4) for e in (True, False, 'none')]
 
     def body(i, rng, ty, T):
         eq, order, frozen, unsafe_hash, explicit = cube[i % len(cube)]
@@ -436,3 +437,45 @@ def run(ctx):
         ctx.case(('special', frozen, eq), nontrivial=True)
 
     drive.for_each_case(ctx, 'special', 60, body_special, gen=lambda c, r: Ty('int'))
+
+    # a subscripted generic class is its origin as far as value semantics go: instances of G[int] use the methods the body of G defines
+    # (or the ones generated for G), exactly like instances of G
+    def body_generic_methods(i, rng, ty, T):
+        import types as _types
+        TV = t.TypeVar('TV')
+        frozen, eq = rng.random() < 0.6, rng.random() < 0.8
+        given = {k for k in ('__hash__', '__eq__', '__lt__', '__repr__', 'hash-none') if rng.random() < 0.4}
+        if 'hash-none' in given:
+            given.discard('__hash__')
+        ns = {'__annotations__': {'x': TV, 'n': int}, 'n': 0, '__module__': __name__}
+        if '__hash__' in given: ns['__hash__'] = lambda self: 42
+        if 'hash-none' in given: ns['__hash__'] = None
+        if '__eq__' in given: ns['__eq__'] = lambda self, o: type(o).__name__ == type(self).__name__ and abs(self.n - o.n) <= 1
+        if '__lt__' in given: ns['__lt__'] = lambda self, o: self.n > o.n          # deliberately upside down
+        if '__repr__' in given: ns['__repr__'] = lambda self: f"<mine {self.n}>"
+        mk = observe(lambda: _types.new_class(f"GM{next(_serial)}", (env.PaneBase, t.Generic[TV]), {'frozen': frozen, 'eq': eq}, lambda d: d.update(ns)))
+        if mk.kind != 'value':
+            return
+        G = mk.val
+        GI = G[int]
+        ctx.count('generic_method_classes')
+        ctx.case(('generic-methods', frozen, eq, tuple(sorted(given))), nontrivial=True)
+
+        def facts(cls):
+            a, b, c = cls(1, 0), cls(1, 1), cls(2, 5)
+            out = {}
+            for label, f in (('hash(a)', lambda: hash(a) if hash(a) == 42 else ('identity' if hash(a) == object.__hash__(a) else 'by-value')), ('a == b', lambda: a == b), ('a == c', lambda: a == c),
+                             ('a == a2', lambda: a == cls(1, 0)), ('a < c', lambda: a < c), ('c < a', lambda: c < a), ('repr(a)', lambda: repr(a).replace(cls.__name__, 'G')),
+                             ('hash equal for equal', lambda: hash(a) == hash(cls(1, 0)))):
+                o = observe(f)
+                out[label] = o.val if o.kind == 'value' else f"raises {type(o.exc).__name__}"
+            return out
+        fo, fs = facts(G), facts(GI)
+        ctx.count('generic_method_comparisons')
+        if fo != fs:
+            diff = {k: (fo[k], fs[k]) for k in fo if fo[k] != fs[k]}
+            ctx.violation('subscripted-class-keeps-methods', 'generic-methods', i, {'options': {'frozen': frozen, 'eq': eq}, 'defined_in_class_body': sorted(given),
+                                                                               'instances_of_G_vs_G[int]': short(diff, 400)},
+                          mech='subscripted-generic-loses:' + ','.join(sorted(k.split('(')[0].split(' ')[0] for k in diff))[:60])
+
+    drive.for_each_case(ctx, 'generic-methods', 60, body_generic_methods, gen=lambda c, r: Ty('int'))
